@@ -76,12 +76,12 @@ func PMTBody(pcrPID uint16, progDescs []byte, ss []PMTStream) []byte {
 }
 
 type SDTService struct {
-	ID            uint16
-	EITSched      bool
-	EITPF         bool
-	Running       uint8
-	FreeCA        bool
-	Descs         []byte
+	ID       uint16
+	EITSched bool
+	EITPF    bool
+	Running  uint8
+	FreeCA   bool
+	Descs    []byte
 }
 
 func SDTBody(onid uint16, ss []SDTService) []byte {
